@@ -138,8 +138,10 @@ class MultipartDecoder:
         # break prefix. In addition the first boundary could be the
         # epilogue boundary (for empty form-data) hence the matching
         # group to understand if it is an epilogue boundary.
+        # (Only at the very start of the body: inside the preamble a line
+        # that merely ends in "--boundary" is not a boundary line.)
         self.preamble_re = re.compile(
-            rb"%s?--%s(--[^\S\n\r]*%s?|[^\S\n\r]*%s)"
+            rb"(?:\A|%s)--%s(--[^\S\n\r]*%s?|[^\S\n\r]*%s)"
             % (LINE_BREAK, re.escape(boundary), LINE_BREAK, LINE_BREAK),
             re.MULTILINE,
         )
